@@ -30,7 +30,12 @@ def _with_other_as_time_type(fn):
     """This is decorator to convert the other argument and the result into a :class:`TimeType`"""
     @functools.wraps(fn)
     def wrapper(self, other) -> 'TimeType':
-        converted = _converter.get(type(other), TimeType._try_from_any)(other)
+        try:
+            converted = _converter.get(type(other), TimeType._try_from_any)(other)
+        except TypeError:
+            # not convertible to a TimeType: let python try the reflected operation of the other operand
+            # (e.g. TimeType + ExpressionScalar -> ExpressionScalar.__radd__)
+            return NotImplemented
         result = fn(self, converted)
         if result is NotImplemented:
             return result
